@@ -33,6 +33,21 @@ def decl(under, hook):
         return f"type Pos = newtype {t}:\n    def from_underlying(n: {t}) -> Result[Pos, str]:\n{body}\n    def inner(self) -> {t}:\n        return self.0\n", True
     if hook == "two_from":  # ambiguous: no hook is selected, construction stays raw
         return f"type Pos = newtype {t}:\n    def from_a(n: {t}) -> Result[Pos, str]:\n{body}\n    def from_b(n: {t}) -> Result[Pos, str]:\n{body}", False
+    # siblings that do not have the hook's shape must not disturb the selection of the single well-shaped from_*
+    other = "str" if t != "str" else "int"
+    ok_body = "        return Ok(Pos(a))\n"
+    sib = {
+        "single_from+two_param_from": f"    def from_pair(a: {t}, b: {t}) -> Result[Pos, str]:\n{ok_body}",
+        "single_from+other_type_from": f"    def from_other(s: {other}) -> Result[Pos, str]:\n        return Err(\"unused\")\n",
+        "single_from+plain_return_from": f"    def from_raw(a: {t}) -> Pos:\n        return Pos(a)\n",
+        "single_from+instance_from": f"    def from_me(self, a: {t}) -> Result[Pos, str]:\n{ok_body}",
+        "single_from+static_non_from": f"    def make(a: {t}) -> Result[Pos, str]:\n{ok_body}",
+        "single_from+no_param_from": "    def from_nothing() -> Result[Pos, str]:\n        return Err(\"unused\")\n",
+    }
+    if hook in sib:
+        return f"type Pos = newtype {t}:\n    def from_{t}(n: {t}) -> Result[Pos, str]:\n{body}\n{sib[hook]}", True
+    if hook == "from_underlying+single_from":  # from_underlying is preferred over any other well-shaped from_*
+        return f"type Pos = newtype {t}:\n    def from_{t}(a: {t}) -> Result[Pos, str]:\n{ok_body}\n    def from_underlying(n: {t}) -> Result[Pos, str]:\n{body}", True
     raise ValueError(hook)
 
 
@@ -126,6 +141,9 @@ def run(tier):
     out = common.Outcome("C17", tier)
     thorough = tier == "thorough"
     hooks = ["none", "from_underlying", "single_from", "hook_plus_method", "two_from"]
+    sibling_hooks = ["single_from+two_param_from", "single_from+other_type_from", "single_from+plain_return_from", "single_from+instance_from", "single_from+static_non_from",
+                     "single_from+no_param_from", "from_underlying+single_from"]
+    hooks += sibling_hooks
     cases = []
     for under in UNDER:
         for hook in hooks:
@@ -135,6 +153,8 @@ def run(tier):
                 if not thorough and under != "int" and site not in ("let", "argument", "model_field", "other_type_method"):
                     continue
                 if not thorough and hook in ("hook_plus_method", "two_from", "none") and site not in ("let", "argument", "return", "list_element"):
+                    continue
+                if hook in sibling_hooks and (site not in (("let", "argument", "return", "other_type_method") if thorough else ("let", "return")) or (under != "int" and not thorough)):
                     continue
                 for ak in ("ok", "bad", "edge"):
                     if not thorough and ak == "edge" and site != "let":
@@ -212,7 +232,7 @@ def run(tier):
     cov = {
         "evaluations": len(cases) + 2 * len(mixes),
         "distinct_nontrivial": len(sig_ok),
-        "rule": "underlying type (int, str, float) x hook kind (none, from_underlying, single from_<type>, hook + other method, two from_* = no hook selected) x 19 construction sites (each also with the newtype declared after its uses) "
+        "rule": "underlying type (int, str, float) x hook kind (none, from_underlying, single from_<type>, hook + other method, two from_* = no hook selected, and the single from_<type> next to each kind of sibling that does not have the hook's shape: two-parameter from_*, from_* over another type, from_* returning the bare type, instance from_*, static non-from method, parameterless from_*; from_underlying next to another well-shaped from_*) x 19 construction sites (each also with the newtype declared after its uses) "
         "sites + 3 sites where the newtype is imported from another module (let, annotated/mut let, argument, return, model field, list element, nested call, another type's method, trait impl / default method, if / for / match blocks, "
         "closure, comprehension, Some(..), helper function, second construction) x argument class (accepted, rejected, boundary); quick restricts the product as stated in the code; "
         "plus 8 mixing positions for two newtypes over int (with accepted twins); non-trivial = distinct signatures that built, ran and satisfied the oracle",
